@@ -768,6 +768,12 @@ package fsutil
 // representative; directories and symlinks pass through untouched.
 //@ func hardlinkFilter.Walk$1
 //@   property C11
+// an entry is forwarded untouched only if it is a directory or a symlink (first call site);
+// everything else (regular files, but also fifos and devices, which can be hard-linked too) goes
+// through the link bookkeeping: forwarded without link name, or re-wrapped, or already the
+// recorded representative
+//@   at call hardlinkFilter.Walk.fn#0: untouched_only_dirs_and_symlinks: fi.IsDir() || fi.Mode() & os.ModeSymlink != 0
+//@   at call hardlinkFilter.Walk.fn#1: link_names_a_forwarded_entry: stat.Linkname == "" || isptr(arg1, dirEntryWithStat) || (haskey(seenFiles, stat.Linkname) && seenFiles[stat.Linkname] == stat.Path)
 //@   requires seenFiles != nil
 //@   modifies seenFiles[*], type types.Stat
 //@   effects WalkFn
